@@ -210,6 +210,9 @@ class ShapeVec(list):
         elif isinstance(i, (list, tuple)):
             for j in i:
                 list.__setitem__(self, j, v)
+        elif isinstance(i, slice) and not isinstance(v, (list, tuple)):
+            for j in range(*i.indices(len(self))):      # NumPy broadcasts a scalar over the slice
+                list.__setitem__(self, j, v)
         else:
             list.__setitem__(self, i, v)
 
@@ -251,6 +254,57 @@ def size_term(shape):
 
 class Requires(Exception):
     pass
+
+
+def linalg_impls():
+    """NumPy 2 shape contracts of numpy.linalg (assumed; audited against NumPy on small sizes by contracts/rules_shape.audit_linalg)."""
+    def sq(a, what):
+        sa = shape_of(a)
+        if len(sa) < 2:
+            raise ValueError(f"{what}: at least 2-D required")
+        cx.assume(cx.SBool(dim_term(sa[-1]) == dim_term(sa[-2])))
+        return sa
+    fk = lambda *xs: promote("real", *[kind_of(x) for x in xs])
+
+    def l_inv(a):
+        return SArr(sq(a, "inv"), fk(a))
+
+    def l_det(a):
+        return SArr(sq(a, "det")[:-2], fk(a))
+
+    def l_slogdet(a):
+        sa = sq(a, "slogdet")
+        return (SArr(sa[:-2], fk(a)), SArr(sa[:-2], "real"))
+
+    def l_cholesky(a, **kw):
+        return SArr(sq(a, "cholesky"), fk(a))
+
+    def l_pinv(a, *args, **kw):
+        sa = shape_of(a)
+        if len(sa) < 2:
+            raise ValueError("pinv: at least 2-D required")
+        return SArr(sa[:-2] + (sa[-1], sa[-2]), fk(a))
+
+    def l_solve(a, b):
+        sa, sb = sq(a, "solve"), shape_of(b)
+        if len(sb) == 0:
+            raise ValueError("solve: 0-d right-hand side")
+        if len(sb) == 1:        # NumPy 2: b is a vector only if it is exactly 1-D
+            cx.assume(cx.SBool(dim_term(sb[0]) == dim_term(sa[-1])))
+            return SArr(sa[:-2] + (sa[-1],), fk(a, b))
+        cx.assume(cx.SBool(dim_term(sb[-2]) == dim_term(sa[-1])))
+        return SArr(bshape(sa[:-2], sb[:-2]) + (sa[-1], sb[-1]), fk(a, b))
+
+    def l_eigh(a, UPLO="L"):
+        sa = sq(a, "eigh")
+        return (SArr(sa[:-1], "real"), SArr(sa, fk(a)))
+
+    def l_norm(x, ord=None, axis=None, keepdims=False):
+        sx_ = shape_of(x)
+        if axis is None:
+            return SArr((1,) * len(sx_) if keepdims else (), "real")
+        return SArr(reduce_shape(sx_, axis, keepdims), "real")
+    return dict(inv=l_inv, det=l_det, slogdet=l_slogdet, cholesky=l_cholesky, pinv=l_pinv, solve=l_solve, eigh=l_eigh, norm=l_norm)
 
 
 def make_namespaces(oblig):
@@ -407,6 +461,12 @@ def make_namespaces(oblig):
             res.pop(-2 if len(sb) != 1 else -1)
         return SArr(tuple(res), promote(kind_of(a), kind_of(b)))
 
+    def a_tri(x, k=0):
+        sh = shape_of(x)
+        if len(sh) == 1:      # NumPy: the mask (n, n) broadcast against the vector
+            return SArr((sh[0], sh[0]), kind_of(x))
+        return same(x)
+
     def a_atleast(nmin):
         def f(*xs):
             outs = []
@@ -518,7 +578,7 @@ def make_namespaces(oblig):
     impls.update(tile=a_tile, zeros_like=same, ones_like=same, argsort=a_argsort, tensordot=a_tensordot, dot=a_dot, inner=a_inner, outer=a_outer, asarray=a_asarray)
     impls.update(transpose=a_transpose, swapaxes=a_swapaxes, moveaxis=a_moveaxis, rollaxis=a_rollaxis, ravel=a_ravel, squeeze=a_squeeze, concatenate_args=a_concat_args,
                  split=a_split, pad=a_pad, rot90=a_rot90, matmul=a_matmul, atleast_1d=a_atleast(1), atleast_2d=a_atleast(2), atleast_3d=a_atleast(3),
-                 flipud=same, fliplr=same, roll=same, triu=same, tril=same, cumsum=lambda x, axis=None: (same(x) if axis is not None else a_ravel(x)),
+                 flipud=same, fliplr=same, roll=same, triu=a_tri, tril=a_tri, cumsum=lambda x, axis=None: (same(x) if axis is not None else a_ravel(x)),
                  clip=lambda x, lo, hi: SArr(bshape(shape_of(x), shape_of(lo), shape_of(hi)), promote(kind_of(x), kind_of(lo), kind_of(hi))))
     # ---- further shape contracts (diag / eye / trace / full / linspace / kron / diff / cross)
     def _smin(a, b):
